@@ -609,7 +609,11 @@ class DataLinkConnection(TransmissionControlObject):
         if rcvd_pdu.name not in self.DLC_PDU_NAMES:
             self.err("non connection mode pdu on data link connection")
             send_pdu = pdu.FrameReject.from_pdu(rcvd_pdu, flags="W", dlc=self)
-            self.close()
+            with self.lock:
+                # this runs in the link thread: shut down right away, do
+                # not start a disconnect that waits for the peer's DM
+                self.state.SHUTDOWN = True
+                self.close()
             self.send_queue.append(send_pdu)
             return
 
